@@ -196,9 +196,104 @@ func runR07_2(c *Ctx, r *R) {
 		loads := fieldMethodCalls(f, "sendWindow", "Load")
 		adds := fieldMethodCalls(f, "sendWindow", "Add")
 		n, nSize, nFrac := 0, 0, 0
-		for _, ret := range returnsOf(f) {
-			if len(ret.Results) != 1 || sa.classOf(ret.Results[0], ret.Block(), false, 0) != SOK {
-				continue // only returns of the OK constant admit the message
+		// The admission decision may sit in decrementSendWindow itself or in a helper method of the same state that it
+		// calls ("try to debit; report whether admitted"): A is the function that loads and debits the window,
+		// admits(ret) says which of its returns admit the message, negSize recognises -size.
+		A := f
+		admits := func(ret *ssa.Return) bool {
+			return len(ret.Results) == 1 && sa.classOf(ret.Results[0], ret.Block(), false, 0) == SOK
+		}
+		negSize := func(v ssa.Value) (ssa.Value, bool) { return negLenOf(v, data) }
+		if len(loads) == 0 && data != nil {
+			var hcall *ssa.Call
+			nh := 0
+			for _, call := range callsIn(f, false) {
+				cv, ok := call.(*ssa.Call)
+				h := call.Common().StaticCallee()
+				if !ok || h == nil || h.Blocks == nil || h.Pkg != f.Pkg || len(cv.Call.Args) == 0 || cv.Call.Args[0] != ssa.Value(f.Params[0]) {
+					continue
+				}
+				if len(fieldMethodCalls(h, "sendWindow", "Load")) > 0 && len(fieldMethodCalls(h, "sendWindow", "Add")) > 0 {
+					hcall = cv
+					nh++
+				}
+			}
+			if nh == 1 && isBoolType(hcall.Type()) {
+				h := hcall.Call.StaticCallee()
+				// every OK return of decrementSendWindow lies behind `helper(...) == true` on every path
+				gated := true
+				for _, ret := range returnsOf(f) {
+					if !admits(ret) {
+						continue
+					}
+					for _, alt := range backPaths(ret.Block(), nil, 32) {
+						through := false
+						for _, cd := range alt {
+							if cd.V == ssa.Value(hcall) && cd.Truth {
+								through = true
+							}
+							if un, ok := cd.V.(*ssa.UnOp); ok && un.Op == token.NOT && un.X == ssa.Value(hcall) && !cd.Truth {
+								through = true
+							}
+						}
+						if !through {
+							gated = false
+						}
+					}
+				}
+				if !gated {
+					r.Bad(fnKey(f)+"/admit-gate", f.Pos(), "decrementSendWindow returns OK on a path that does not pass %s(...) == true: a message is admitted without consulting the send window", h.Name())
+				} else {
+					r.OK(fnKey(f)+"/admit-gate", f.Pos(), "every OK return lies behind %s(...) == true", h.Name())
+				}
+				// the size handed to the helper is len(data)
+				sizeParam := -1
+				for i, a := range hcall.Call.Args {
+					x := a
+					for {
+						if cv, ok := x.(*ssa.Convert); ok {
+							x = cv.X
+							continue
+						}
+						break
+					}
+					if isLenOf(x, data) {
+						sizeParam = i
+					}
+				}
+				A = h
+				loads = fieldMethodCalls(h, "sendWindow", "Load")
+				adds = fieldMethodCalls(h, "sendWindow", "Add")
+				admits = func(ret *ssa.Return) bool {
+					if len(ret.Results) != 1 {
+						return false
+					}
+					k, ok := ret.Results[0].(*ssa.Const)
+					return ok && k.Value != nil && k.Value.String() == "true"
+				}
+				negSize = func(v ssa.Value) (ssa.Value, bool) {
+					un, ok := v.(*ssa.UnOp)
+					if !ok || un.Op != token.SUB || sizeParam < 0 {
+						return nil, false
+					}
+					x := un.X
+					for {
+						if cv, ok := x.(*ssa.Convert); ok {
+							x = cv.X
+							continue
+						}
+						break
+					}
+					if x == ssa.Value(h.Params[sizeParam]) {
+						return un.X, true
+					}
+					return nil, false
+				}
+			}
+		}
+		for _, ret := range returnsOf(A) {
+			if !admits(ret) {
+				continue // only returns of the OK constant (of `true` in a try-helper) admit the message
 			}
 			n++
 			key := fmt.Sprintf("%s/admit#%d", fnKey(f), n)
@@ -207,7 +302,7 @@ func runR07_2(c *Ctx, r *R) {
 			var sizeVal ssa.Value
 			for _, a := range adds {
 				if dominatesInstr(a, ret) && a.Block() == ret.Block() && len(a.Call.Args) == 2 && data != nil {
-					if sv, isNeg := negLenOf(a.Call.Args[1], data); isNeg {
+					if sv, isNeg := negSize(a.Call.Args[1]); isNeg {
 						debit = true
 						sizeVal = sv
 					}
@@ -366,6 +461,16 @@ func runR07_5(c *Ctx, r *R) {
 	if f := r.Need("mpx", "channelState.decrementSendWindow"); f != nil {
 		key := fnKey(f) + "/reload-after-wake"
 		loads := fieldMethodCalls(f, "sendWindow", "Load")
+		if len(loads) == 0 {
+			// the window is read by a helper called from the loop: the call is the read point
+			for _, call := range callsIn(f, false) {
+				cv, ok := call.(*ssa.Call)
+				h := call.Common().StaticCallee()
+				if ok && h != nil && h.Blocks != nil && h.Pkg == f.Pkg && len(fieldMethodCalls(h, "sendWindow", "Load")) > 0 {
+					loads = append(loads, cv)
+				}
+			}
+		}
 		var sel *ssa.Select
 		allInstrs(f, func(i ssa.Instruction) {
 			if s, ok := i.(*ssa.Select); ok && s.Blocking {
